@@ -8,12 +8,13 @@ import (
 )
 
 type gen40 struct {
-	rnd    *hx.Rand
-	nextID int
+	rnd        *hx.Rand
+	nextID     int
+	pendingDup int
 }
 
 func makeGen40(rnd *hx.Rand) func(state any, step int) string {
-	g := &gen40{rnd: rnd}
+	g := &gen40{rnd: rnd, pendingDup: -1}
 	return func(state any, step int) string { return g.next(state.(*run40), step) }
 }
 
@@ -81,7 +82,7 @@ func (g *gen40) parked(r *run40) []*req40 {
 // of the last one that advanced, sometimes the same (false retry) or another.
 func (g *gen40) seqFor(r *run40, owner int) uint32 {
 	rnd := g.rnd
-	base := uint32(1 + rnd.Intn(3))
+	base := g.firstSeq()
 	if last := r.lastCons[owner]; last != nil {
 		base = nextSeq40(last.seq)
 		switch rnd.Pick(84, 7, 4, 3, 2) {
@@ -96,6 +97,19 @@ func (g *gen40) seqFor(r *run40, owner int) uint32 {
 		}
 	}
 	return base
+}
+
+// firstSeq: the seqid a new open-owner / lock-owner starts with (the client is
+// free to choose): small, or just below 2^31 or 2^32 so that the stream crosses
+// the signed boundary or wraps (0xffffffff is followed by 1, never 0).
+func (g *gen40) firstSeq() uint32 {
+	switch g.rnd.Pick(6, 2, 2) {
+	case 1:
+		return 0x7fffffff - uint32(g.rnd.Intn(3))
+	case 2:
+		return 0xffffffff - uint32(g.rnd.Intn(3))
+	}
+	return uint32(1 + g.rnd.Intn(3))
 }
 
 func (g *gen40) next(r *run40, step int) string {
@@ -226,14 +240,26 @@ func (g *gen40) next(r *run40, step int) string {
 		if len(los) > 0 {
 			lo := los[rnd.Intn(len(los))]
 			var cands []chain40
+			clientOf := func(owner int) int {
+				for k, v := range r.owners {
+					if v == owner {
+						var c, o int
+						fmt.Sscanf(k, "%d/%d", &c, &o)
+						return c
+					}
+				}
+				return -1
+			}
 			for _, ch := range opens {
-				if ch.owner == lo.owner && !ch.closed {
+				// same open-owner, or another open-owner of the same client (the runner
+				// refuses it if the lock-owner already holds that file through another one)
+				if !ch.closed && (ch.owner == lo.owner || clientOf(ch.owner) == clientOf(lo.owner)) {
 					cands = append(cands, ch)
 				}
 			}
 			if len(cands) > 0 {
 				ch := cands[rnd.Intn(len(cands))]
-				lq := lo.lastSeq + 1
+				lq := nextSeq40(lo.lastSeq)
 				switch rnd.Pick(55, 15, 15, 15) {
 				case 1:
 					lq = lo.lastSeq
@@ -245,6 +271,40 @@ func (g *gen40) next(r *run40, step int) string {
 				g.nextID++
 				return fmt.Sprintf("lock %d %d %d %d %d %d %d lo=%d", id, ch.latest, g.seqFor(r, ch.owner), lq, rnd.Intn(20), rnd.Intn(10), rnd.Intn(2), lo.k)
 			}
+		}
+	}
+	// (d) a lock-owner with state on two files: after its latest LOCK/LOCKU on one file,
+	// CLOSE the OTHER file (an unrelated open-owner transaction), then retransmit
+	if g.pendingDup >= 0 {
+		d := g.pendingDup
+		g.pendingDup = -1
+		return fmt.Sprintf("dup %d", d)
+	}
+	if rnd.Chance(1, 6) {
+		for k := g.nextID - 1; k >= 0; k-- {
+			q, ok := r.reqs[k]
+			if !ok || !q.lockTx || r.lastLock[q.lockOwn] != q {
+				continue
+			}
+			for _, ch := range opens {
+				if ch.closed || ch.file == q.file || !r.confirmed[ch.owner] {
+					continue
+				}
+				held := false
+				for _, p := range r.reqs {
+					if p.kind == kLock && !p.lockTx && p.lockOwn == q.lockOwn && p.file == ch.file && p.owner == ch.owner {
+						if pc := p.firstReturned(); pc != nil && pc.res.Status == 0 {
+							held = true
+						}
+					}
+				}
+				if held {
+					g.pendingDup = k
+					g.nextID++
+					return fmt.Sprintf("close %d %d %d", id, ch.latest, g.seqFor(r, ch.owner))
+				}
+			}
+			break
 		}
 	}
 	choice := rnd.Pick(18, 30, 8, 24, 6+10*len(parked), 4)
@@ -268,7 +328,7 @@ func (g *gen40) next(r *run40, step int) string {
 		case 1:
 			return fmt.Sprintf("close %d %d %d", id, x, q)
 		case 2:
-			return fmt.Sprintf("lock %d %d %d %d %d %d %d", id, x, q, 1+rnd.Intn(3), rnd.Intn(20), rnd.Intn(10), rnd.Intn(2))
+			return fmt.Sprintf("lock %d %d %d %d %d %d %d", id, x, q, g.firstSeq(), rnd.Intn(20), rnd.Intn(10), rnd.Intn(2))
 		case 3:
 			return fmt.Sprintf("confirm %d %d %d", id, x, q)
 		default:
@@ -294,9 +354,9 @@ func (g *gen40) next(r *run40, step int) string {
 		// the lock-owner's next seqid as the client knows it
 		q := uint32(0)
 		if yq.lockTx {
-			q = yq.seq + 1
+			q = nextSeq40(yq.seq)
 		} else {
-			q = yq.lockSeq + 1
+			q = nextSeq40(yq.lockSeq)
 		}
 		switch rnd.Pick(80, 8, 6, 6) {
 		case 1:
